@@ -150,7 +150,7 @@ pub fn gen_plan(def: &CheckDef, ctx: &Ctx, seed: u64, thorough: bool) -> Plan {
         // 1 of 8 runs is an enumeration plan (heavy: hundreds of sessions), the others are generic
         // fault-injecting sessions judged by the same position read-back oracle
         "engine_interrupt" if seed % 8 != 0 => Plan::Engine(enginesim::gen_plan("C09", seed, thorough, &ctx.pool)),
-        "engine_interrupt" => Plan::Engine(enginesim::gen_plan_interrupt(seed, thorough, &ctx.pool)),
+        "engine_interrupt" => Plan::Engine(enginesim::gen_plan_interrupt(seed, thorough, &ctx.pool, &ctx.imbalanced)),
         other => panic!("unknown simulator {}", other),
     }
 }
